@@ -357,10 +357,14 @@ def run_robust(cmd, cases, timeout=900, died='DIED', _retry=True):
     for dead, rc, err in crashes:
         if dead is not None and res[dead] is None:
             res[dead] = '%s rc=%d %s' % (died, rc, err.strip().replace('\n', ' | ')[:160])
-    for rnd in range(60):
+    # every deliberate trap (division by zero ...) ends the driver process: go on until every case has run or a round
+    # makes no progress
+    last_missing = None
+    for rnd in range(5000):
         missing = [i for i, r in enumerate(res) if r is None]
-        if not missing:
+        if not missing or (last_missing is not None and len(missing) >= last_missing):
             break
+        last_missing = len(missing)
         sub = [cases[i] for i in missing]
         r2, cr2 = run_driver(cmd, sub, timeout=timeout, nproc=min(len(sub), 4 * NCPU))
         for dead, rc, err in cr2:
